@@ -954,14 +954,18 @@ func runC14(cfg *RunCfg, rep *Reporter, cov *Cov) {
 		if (d.kind == "overwrite-lengths-crafted" || d.lengthFlip) && allocViol > 0 {
 			return // the sequential pass already showed the allocation; 16 workers allocating GiBs would only kill the run
 		}
-		c14One(cfg, rep, cov, s, j.s, d, dir)
+		c14One(cfg, rep, cov, s, j.s, d, dir, false)
+		if d.overwrite && len(d.log) == len(s.segs[d.seg].log) && k%5 == 2 {
+			// the same damage applied in place to the OPEN log, after every call has been made once
+			c14One(cfg, rep, cov, s, j.s, d, dir, true)
+		}
 		if k%5003 == 0 {
 			cov.Sample("c14-"+d.kind, map[string]any{"subject": j.s, "segment": d.seg, "damage": d.kind, "from": d.from, "to": d.to, "pos_class": c14PosClass(s.segs[d.seg], d), "calls": len(s.calls)})
 		}
 	})
 }
 
-func c14One(cfg *RunCfg, rep *Reporter, cov *Cov, s *c14Subject, si int, d c14Damage, dir string) {
+func c14One(cfg *RunCfg, rep *Reporter, cov *Cov, s *c14Subject, si int, d c14Damage, dir string, live bool) {
 	seg := s.segs[d.seg]
 	pc := c14PosClass(seg, d)
 	role := "middle"
@@ -988,9 +992,37 @@ func c14One(cfg *RunCfg, rep *Reporter, cov *Cov, s *c14Subject, si int, d c14Da
 		}
 		rep.Report(Violation{Property: "C14", Sig: "dmgmon|" + sig, What: what, Replay: rp})
 	}
-	s.write(dir, d.seg, d.log)
+	if live {
+		s.write(dir, -1, nil)
+	} else {
+		s.write(dir, d.seg, d.log)
+	}
 	l, err := kOpen(dir, OpenOpts{KeyIndex: s.cfg.Keys, TimeIdx: s.cfg.Times})
 	cov.Add("evaluations", 1)
+	if live {
+		if err != nil {
+			return
+		}
+		// every call once on the clean log (whatever the readers cache or remember is now in place),
+		// then the bytes are overwritten in the file the log has open (same inode, pwrite)
+		for _, c := range s.calls {
+			doCall(l, c)
+		}
+		ln, _ := ref.SegName(seg.base)
+		f, ferr := os.OpenFile(filepath.Join(dir, ln), os.O_WRONLY, 0)
+		if ferr != nil {
+			kClose(l)
+			return
+		}
+		_, werr := f.WriteAt(d.log[d.from:d.to], int64(d.from))
+		f.Close()
+		if werr != nil {
+			kClose(l)
+			return
+		}
+		cov.Add("outcome.damaged-while-open", 1)
+		role += "(open)"
+	}
 	if err != nil {
 		if isPanic(err) {
 			report("open:panic:"+panicFrame(err), fmt.Sprintf("Open panicked on a damaged directory: %v", err), nil)
@@ -1006,7 +1038,32 @@ func c14One(cfg *RunCfg, rep *Reporter, cov *Cov, s *c14Subject, si int, d c14Da
 		cov.Distinct("dmg", fmt.Sprintf("%s|%s|%s|Open|fails", role, d.kind, pc))
 		return
 	}
-	defer kClose(l)
+	closed := false
+	defer func() {
+		if !closed {
+			kClose(l)
+		}
+	}()
+	// after the calls: a refused read must not leave anything behind - Close succeeds and releases the
+	// directory, so that the reopen (which the calls answered from other files depend on) is possible
+	defer func() {
+		if closed || !d.overwrite {
+			return
+		}
+		closed = true
+		if err := kClose(l); err != nil {
+			report("close-fails-after-reads:"+errClass(err), fmt.Sprintf("Close failed (%s) after read calls on a log with %s at [%d,%d) of the %s segment", errText(err), d.kind, d.from, d.to, role), nil)
+			return
+		}
+		if d.seg != len(s.segs)-1 {
+			l2, err := kOpen(dir, OpenOpts{KeyIndex: s.cfg.Keys, TimeIdx: s.cfg.Times})
+			if err != nil {
+				report("reopen-fails-after-reads:"+errClass(err), fmt.Sprintf("the directory cannot be opened again (%s) after read calls on a log with %s of the %s segment were refused and the log was closed", errText(err), d.kind, role), nil)
+				return
+			}
+			kClose(l2)
+		}
+	}()
 	// records overlapping the damaged range
 	R := map[int64]bool{}
 	if d.overwrite && d.from >= ref.FileHeaderSize {
